@@ -482,6 +482,11 @@ class Abs:
         if a[0] == 'pytuple' and b[0] == 'pytuple' and len(a[1]) == len(
                 b[1]):
             return ('pytuple', [self.join(x, y) for x, y in zip(a[1], b[1])])
+        # the empty tuple iterates over nothing
+        for x, y in ((a, b), (b, a)):
+            if x[0] == 'pytuple' and not x[1] and y[0] in (
+                    'node', 'nodes', 'pytuple', 'list'):
+                return ('nodes', ) if y[0] == 'node' else y
         # a node or a Python list of nodes: both iterate over nodes
         for x, y in ((a, b), (b, a)):
             if x[0] == 'list' and x[1] == ('node', ) and y[0] in (
@@ -1014,7 +1019,7 @@ class Abs:
                             c in SAFE for c in new):
                         # characters stay token-safe; may become empty
                         ne = False
-                        return ('text', 'FRAG-OF-' + recv[1] if recv[1]
+                        return ('text', 'VERBMOD' if recv[1]
                                 != 'FRAG' else 'FRAG', ne, None)
                     return ('text', 'REPL-' + recv[1], False, None)
                 if a == 'replace' and len(e.args) == 2:
